@@ -35,6 +35,8 @@ P = {
          "partial: step lemmas and tables proved; grammar-wide positions tested; expression gaps next to operands are whitespace-only in the sampler (documented limitation of the crate)."),
  "C14": ("Theorems (no axioms): the constructs of the C14 list pre-load an expectation mode for their mandatory delimiter; in an ExpectSymbol expectation with a different next character (or at end of input) the lexer records the matching MissingExpected error at the current position, adds a zero-width token of the expected type/channel and pops the mode (all states, release profile; debug via C19). Every single-delimiter deletion in sampled grammar programs is tested for exactly this error and token at the expected offset.",
          "partial: grammar-wide statement tested; the recovery step and pre-loads proved."),
+ "C15": ("The statement is the Coq predicate Spec/Glue.compose_check (closed prefix per DESIGN 6.4, glue of results). Theorems (no axioms): for the production ';'* the run is computed in closed form for every length, every non-empty run of empty statements is a closed prefix and followed by any number of empty statements the result is exactly the glue (release profile); from any open-code state a ';' restores the statement-pending flag and leaves the rest of the configuration unchanged; a witness theorem shows the full statement false of the model on the known finding KF-1 (datalines look-behind after a statement comment). For arbitrary pairs the statement is evaluated: lex(A), lex(B), lex(A+B) by the implementation (debug, release) through the glue oracle and by the extracted compose_check on the model; prefixes are grammar programs and arbitrary strings the lexer itself leaves in the initial configuration, continuations include every trigger fragment.",
+         "partial: one production proved, the all-pairs statement evaluated (not proved); known finding KF-1 is listed in known_findings.txt and printed as KNOWN-FINDING; the macro_sep feature build is covered through C18 only."),
  "C16": ("Theorems (no axioms, all inputs): keyword lookup after upper-casing, the macro keyword scanner, the statement look-ahead and the mnemonic recogniser are invariant under ASCII case change. Whole-lexer invariance is tested on random/extreme variants of every input and all (or sampled) 2^n variants of keyword/mnemonic/suffix templates.",
          "partial: whole-lexer statement tested, helpers proved."),
  "C17": ("Theorem C17_bom_transparent (no axioms): for every source not starting with U+FEFF, if the plain run returns within budget with the loop detector silent, the run on BOM+source returns the same tokens/lines/literals/errors shifted by (3 bytes, 1 char). Tie: plain and marked inputs through model and implementation, plus the direct pairwise oracle.",
